@@ -306,6 +306,28 @@ type beWrap struct {
 	s    *sched
 	be   Backend
 	real cache.ReadWriter
+	// faultAtCall >= 0 makes the n-th wrapper call (0-based, Reads and Writes counted together)
+	// fail with a unique injected error (single-fault enumeration).
+	faultAtCall int
+	calls       int
+}
+
+// nextCallFault returns the injected error for this call if it is the enumerated fault position.
+func (w *beWrap) nextCallFault(op string, key []byte) error {
+	w.s.log.mu.Lock()
+	defer w.s.log.mu.Unlock()
+
+	n := w.calls
+	w.calls++
+
+	if n != w.faultAtCall {
+		return nil
+	}
+
+	ie := &injectedErr{op: op, key: string(key), step: w.s.step}
+	w.s.log.berrs[string(key)] = append(w.s.log.berrs[string(key)], ie)
+
+	return ie
 }
 
 func (w *beWrap) Read(ctx context.Context, key []byte) (interface{}, error) {
@@ -316,6 +338,10 @@ func (w *beWrap) Read(ctx context.Context, key []byte) (interface{}, error) {
 
 func (w *beWrap) readCommon(ctx context.Context, key []byte, do func() (interface{}, error)) (interface{}, error) {
 	msg := w.s.yield(ctx, "be.Read", key, true)
+	if f := w.nextCallFault("read", key); f != nil && msg.fault == nil {
+		msg.fault = f
+	}
+
 	rec := &beRec{op: "read", key: string(key), task: w.s.taskName(ctx), step: w.s.step, at: time.Now(), ttl: cache.TTL(ctx), skip: cache.SkipRead(ctx)}
 
 	var (
@@ -350,6 +376,10 @@ func (w *beWrap) Write(ctx context.Context, key []byte, v interface{}) error {
 
 func (w *beWrap) writeCommon(ctx context.Context, key []byte, v interface{}, do func() error) error {
 	msg := w.s.yield(ctx, "be.Write", key, true)
+	if f := w.nextCallFault("write", key); f != nil && msg.fault == nil {
+		msg.fault = f
+	}
+
 	rec := &beRec{op: "write", key: string(key), task: w.s.taskName(ctx), step: w.s.step, at: time.Now(), ttl: cache.TTL(ctx), skip: cache.SkipRead(ctx), val: v}
 
 	if msg.fault != nil {
@@ -578,12 +608,14 @@ type world struct {
 	fe   frontend
 	ct   *countTracker
 	name string
+	wrap        *beWrap
+	faultAtCall int
 	// model-side counts of direct operations on the real backend (C18)
 	extDeleted, extExpired, prepWrites, prefailWrites int
 }
 
 func newWorld(c *Case, cfg foCfg) *world {
-	w := &world{c: c, cfg: cfg, log: newRunLog(), ct: newCountTracker(), name: "fo"}
+	w := &world{c: c, cfg: cfg, log: newRunLog(), ct: newCountTracker(), name: "fo", faultAtCall: -1}
 	w.s = newSched(c, w.log)
 
 	kind := []string{kindSharded, kindSync, kindShardedOf}[cfg.variant]
@@ -619,7 +651,8 @@ func (w *world) attach() {
 		stats = schedTracker{s: w.s, ct: w.ct}
 	}
 
-	wrap := &beWrap{s: w.s, be: w.be}
+	wrap := &beWrap{s: w.s, be: w.be, faultAtCall: w.faultAtCall}
+	w.wrap = wrap
 
 	if cfg.variant == 2 {
 		real := w.be.Raw().(*cache.ShardedMapOf[string])
